@@ -78,7 +78,7 @@ def deflationSeed(
         saliencies = saliencies * distance
 
     # The last class captures the rest
-    posterior.append(1 - np.sum(posterior, axis=0))
+    posterior.append(np.ones_like(saliencies) - np.sum(posterior, axis=0))
 
     # The last posterior can be negative. This line fixes this
     posterior = np.maximum(posterior, eps)
